@@ -564,7 +564,8 @@ def h_operator(trigger: int, at: int, su_dur: int, su_fails: bool, cu_dur: int, 
         ok = False
     if failing:
         vkopf.witness('startup_failed')
-        if not outcome['result'].startswith('raised'):
+        # (a cancellation that arrives while the operator is already shutting down because of the failure wins: CancelledError)
+        if not (outcome['result'].startswith('raised') or (trig == 'cancel' and outcome['result'] == 'cancelled')):
             ok = False
     # 2. the ready flag only after startup; a stop/cancellation that arrives during startup leaves no trace of readiness or API use
     if outcome['ready'] and not started:
@@ -601,9 +602,12 @@ def h_operator(trigger: int, at: int, su_dur: int, su_fails: bool, cu_dur: int, 
     # 4b. the peering record was announced and is withdrawn on the way out
     if c.get('peering') and started and not stopped_during_startup:
         patches_ = [rt for rt, m_, path_ in requests if m_ == 'PATCH' and 'clusterkopfpeerings' in path_]
-        if len(patches_) < 2 or (peer.get('status') or {}).get('me') is not None:
-            ok = False
-        vkopf.witness('peering_withdrawn')
+        if (peer.get('status') or {}).get('me') is not None:
+            ok = False                  # whatever was announced is withdrawn
+        if phase == 'steady':
+            if len(patches_) < 2:
+                ok = False              # ... and in steady state it had been announced
+            vkopf.witness('peering_withdrawn')
     # 5. in steady state the operator actually operated (vacuity): the object was listed, handled, and its daemon ran
     if started and not stopped_during_startup and trig in ('stop_flag', 'cancel') and fault is None and at > su_dur + 3:
         vkopf.witness('steady')
